@@ -175,6 +175,14 @@ def dispatch (c : Ctx) (r : Row) (options : BitVec 32) (o0 o1 o2 o3 : Op) : Exce
     else if isign3 == MR + 4 * 64 then emitVexEvexM c opcode options (r32 o1.id) (memOf o0) o2.immVal 1
     else .error .invalidInstruction
   let lx01 := opcodeLBySize (o0.rmSize ||| o1.rmSize)
+  -- VexRvmRmv: [reg, rm, vvvv] (W0); with `mod_mr()` or a memory third operand the equivalent [reg, vvvv, rm] form (W1)
+  let vexRvmRmv : Except Err (List Byte) :=
+    if isign3 == 1 + 8 + 64 then
+      if (options &&& oModMR) == 0#32 then emitVexEvexR c opcode options (packRegVvvvv o0.id o2.id) (r32 o1.id) 0 0
+      else emitVexEvexR c (opcode ||| kW) options (packRegVvvvv o0.id o1.id) (r32 o2.id) 0 0
+    else if isign3 == 1 + 16 + 64 then emitVexEvexM c opcode options (packRegVvvvv o0.id o2.id) (memOf o1) 0 0
+    else if isign3 == 1 + 8 + 128 then emitVexEvexM c (opcode ||| kW) options (packRegVvvvv o0.id o1.id) (memOf o2) 0 0
+    else .error .invalidInstruction
   -- VexRmMr: load = main opcode, store = alternative opcode (keeping LL)
   let vexRmMr (opc : BitVec 32) : Except Err (List Byte) :=
     if isign3 == RR then emitVexEvexR c opc options (r32 o0.id) (r32 o1.id) 0 0
@@ -222,6 +230,11 @@ def dispatch (c : Ctx) (r : Row) (options : BitVec 32) (o0 o1 o2 o3 : Op) : Exce
   | 0x7d => vexRvmi ((opcode ||| (b2w o0.isMask <<< 12)) ||| lx01)                 -- VexRvmi_Lx_KEvex
   | 0x7a => vexRvmi opcode                                                         -- VexRvmi
   | 0x7c => vexRvmi (opcode ||| lx01)                                              -- VexRvmi_Lx
+  | 0x85 => vexRvmRmv                                                              -- VexRvmRmv (XOP vpsha* / vpshl*)
+  | 0x88 =>                                                                        -- VexRvmRmvRmi (XOP vprot*): + immediate form, alternative opcode
+    if isign3 == RR + 4 * 64 then emitVexEvexR c r.altOp options (r32 o0.id) (r32 o1.id) o2.immVal 1
+    else if isign3 == RM + 4 * 64 then emitVexEvexM c r.altOp options (r32 o0.id) (memOf o1) o2.immVal 1
+    else vexRvmRmv
   | 0x83 => vexRmMr opcode                                                         -- VexRmMr
   | 0x84 => vexRmMr (opcode ||| lx01)                                               -- VexRmMr_Lx
   | 0x62 =>                                                                        -- VexMr_Lx
@@ -423,17 +436,15 @@ def dispatch (c : Ctx) (r : Row) (options : BitVec 32) (o0 o1 o2 o3 : Op) : Exce
     else if isign3 == RM then
       if !o0.isGp then .error .unmodelled else
       let m := memOf o1
-      -- `mov ah, [abs]` takes the accumulator path too (AH has the id of AL): a defect (fixes/C01-15.patch), not modelled
-      if o0.id == 0 && m.baseType == 0 && m.indexType == 0 && o0.isGp8Hi then .error .unmodelled else
-      if o0.id == 0 && m.baseType == 0 && m.indexType == 0 && shouldUseMovabs c o0.rmSize options m then
+      -- AH has the id of AL but no moffs form (repaired code, fixes/C01-15.patch)
+      if o0.id == 0 && m.baseType == 0 && m.indexType == 0 && !o0.isGp8Hi && shouldUseMovabs c o0.rmSize options m then
         emitMovAbs c (addArithBySize 0#32 o0.rmSize + 0xA0#32) options m else
       let (opt1, rg) := if o0.rmSize == 1 then fixupGpb options o0 (r32 o0.id) else (options, r32 o0.id)
       emitX86M c (addArithBySize 0#32 o0.rmSize + 0x8A#32) opt1 rg m 0 0
     else if isign3 == MR then
       if !o1.isGp then .error .unmodelled else
       let m := memOf o0
-      if o1.id == 0 && m.baseType == 0 && m.indexType == 0 && o1.isGp8Hi then .error .unmodelled else
-      if o1.id == 0 && m.baseType == 0 && m.indexType == 0 && shouldUseMovabs c o1.rmSize options m then
+      if o1.id == 0 && m.baseType == 0 && m.indexType == 0 && !o1.isGp8Hi && shouldUseMovabs c o1.rmSize options m then
         emitMovAbs c (addArithBySize 0#32 o1.rmSize + 0xA2#32) options m else
       let (opt1, rg) := if o1.rmSize == 1 then fixupGpb options o1 (r32 o1.id) else (options, r32 o1.id)
       emitX86M c (addArithBySize 0#32 o1.rmSize + 0x88#32) opt1 rg m 0 0
@@ -454,15 +465,13 @@ def dispatch (c : Ctx) (r : Row) (options : BitVec 32) (o0 o1 o2 o3 : Op) : Exce
   | 0x2d =>                                                                       -- X86Movabs (moffs forms; `movabs r64, imm64` not modelled)
     if isign3 == RM then
       let m := memOf o1
-      if !o0.isGp || o0.id != 0 then .error .invalidInstruction
-      else if o0.isGp8Hi then .error .unmodelled                                   -- (defect, fixes/C01-15.patch)
+      if !o0.isGp || o0.id != 0 || o0.isGp8Hi then .error .invalidInstruction
       else if m.baseType != 0 || m.indexType != 0 then .error .invalidAddress
       else if m.addrType == 2 then .error .invalidAddress
       else emitMovAbs c (addArithBySize 0xA0#32 o0.rmSize) options m
     else if isign3 == MR then
       let m := memOf o0
-      if !o1.isGp || o1.id != 0 then .error .invalidInstruction
-      else if o1.isGp8Hi then .error .unmodelled
+      if !o1.isGp || o1.id != 0 || o1.isGp8Hi then .error .invalidInstruction
       else if m.baseType != 0 || m.indexType != 0 then .error .invalidAddress
       else emitMovAbs c (addArithBySize 0xA2#32 o1.rmSize) options m
     else .error .unmodelled
